@@ -37,6 +37,7 @@ package ice
 //@   props C05 C03 C04
 //@   requires a != nil
 //@   modifies a.selector, a.selectorLock
+//@   site call Start#1 assert C03 C05 C20 the-new-selector-starts-from-a-clean-state-before-it-is-installed: recv == s
 //@   ensures fresh-selector: a.selector != nil && fresh(cast(a.selector, *controllingSelector))
 //@   ensures lite-wrapper: a.lite ==> istype(a.selector, *liteSelector)
 //@   ensures full-controlling: !a.lite && a.isControlling != 0 ==> istype(a.selector, *controllingSelector)
